@@ -434,7 +434,8 @@ func runC18(cfg *vh.Config) error {
 				fail("C18 worker process died outside a step", "never panics or recurses forever", o.Msg)
 			case "set":
 				if bad {
-					fail(fmt.Sprintf("C18 SchemaSetFromFiles -> %s in %s: %s", o.Class, o.Site, normMsg(o.Msg)), "building J5 schemas returns a schema set or an error; it never panics or recurses forever", o.Msg)
+					// a reader panic is never part of the name-collision finding (fixed by 32db692; C18_reflect_total)
+					failK(nil, fmt.Sprintf("C18 SchemaSetFromFiles -> %s in %s: %s", o.Class, o.Site, normMsg(o.Msg)), "building J5 schemas returns a schema set or an error; it never panics or recurses forever", o.Msg)
 				}
 				for i, v := range o.Viol {
 					clause, _, _ := strings.Cut(v, ":")
@@ -452,7 +453,7 @@ func runC18(cfg *vh.Config) error {
 			case "msg":
 				fresh[arg] = o.Class
 				if bad {
-					fail(fmt.Sprintf("C18 SchemaCache.Schema -> %s in %s: %s", o.Class, o.Site, normMsg(o.Msg)), "building J5 schemas returns a schema set or an error; it never panics or recurses forever", o.Msg)
+					failK(nil, fmt.Sprintf("C18 SchemaCache.Schema -> %s in %s: %s", o.Class, o.Site, normMsg(o.Msg)), "building J5 schemas returns a schema set or an error; it never panics or recurses forever", o.Msg)
 				}
 				for i, v := range o.Viol {
 					clause, _, _ := strings.Cut(v, ":")
@@ -546,7 +547,7 @@ func runC18(cfg *vh.Config) error {
 				for i, s := range o.Sub {
 					hk := scope.ofMessage(o.Names[i])
 					if s == "panic" {
-						failK(hk, fmt.Sprintf("C18 SchemaCache.Schema after an earlier failed build on the same cache -> panic: %s", normMsg(o.SubMsg[i])), "building J5 schemas returns a schema set or an error; it never panics", fmt.Sprintf("order=%v at %s: %s", o.Names, o.Names[i], o.SubMsg[i]))
+						failK(nil, fmt.Sprintf("C18 SchemaCache.Schema after an earlier failed build on the same cache -> panic: %s", normMsg(o.SubMsg[i])), "building J5 schemas returns a schema set or an error; it never panics", fmt.Sprintf("order=%v at %s: %s", o.Names, o.Names[i], o.SubMsg[i]))
 					} else if f, ok := fresh[o.Names[i]]; ok && f != s && (f == "ok" || s == "ok") {
 						failK(hk, fmt.Sprintf("C18 SchemaCache.Schema answer depends on earlier failed builds: fresh %s, shared %s: %s", f, s, normMsg(o.SubMsg[i])), "a failed build leaves no half-built entry that changes a later answer", fmt.Sprintf("order=%v at %s: %s", o.Names, o.Names[i], o.SubMsg[i]))
 					}
